@@ -11,30 +11,38 @@ PID = 'C15'
 HARNESS = 'h_c15'
 MODEL_MODULE = 'V.C15.Model'
 READY = True
-RULE = ('cases = (1..6 options over kinds {flag store_true, flag store_false, int, string, vector<int>, ValueMap int, custom notifier, ValueMap flag store_true, ValueMap flag store_false} '
+RULE = ('cases = (1..6 options over kinds {flag store_true, flag store_false, int, string, vector<int>, ValueMap int, custom notifier, ValueMap flag store_true, ValueMap flag store_false, ValueMap vector<int>} '
         'x composing x implicit x default(valid/invalid), 1..5 operations over assign(source of 0..7 (option,value) pairs with duplicates '
         'and refused strings at every position, optional exclude set) / assignDefaults / fresh ParsedOptions / ParsedOptions::add(name) for own and FOREIGN names / '
         'assign of a source of a SECOND context (6 string options) on the same ParsedOptions object; 30 % of the cases hand assignDefaults a set with foreign names whose total size is '
-        'below / equal / above the number of options of the context while options are unmentioned); '
+        'below / equal / above the number of options of the context while options are unmentioned; 25 % of the cases are 2..4 RUNS over the same targets: op NEW RUN destroys the option '
+        'group / context / Value objects and builds them again from the same descriptors with a fresh ParsedOptions, while the bound variables, the ValueMap and the notifier log '
+        'survive; each run = 0..3 sources + mostly assignDefaults, values drawn anew per run, mapped kinds favoured); '
         'non-trivial = at least one assign op with >= 1 pair; distinct = distinct case tuples')
 TRUSTED_BASE = ['typed parsers (string_cast<int/bool/vector<int>>) are abstract in the theorems; their concrete model used for the '
                 'correspondence covers the decimal sublanguage only (C16 covers conversions)',
                 'props/C15.py reference semantics (oracle on the implementation)']
-ASSUMPTIONS = ['value / implicit / default strings are NUL-free', 'numeric strings in generated cases are decimal (no 0x / leading-0 octal / imax keywords / brackets)',
+ASSUMPTIONS = ['value / implicit / default strings are NUL-free', 'a new run re-builds the option set from the SAME descriptors and starts with a fresh ParsedOptions', 'numeric strings in generated cases are decimal (no 0x / leading-0 octal / imax keywords / brackets)',
                'between two assign calls no value is in state value_fixed (holds initially and is re-established by every assign: c15_recorded)']
 ALLOWED_AXIOMS = []
 TECHNIQUE = 'Coq proof about an executable model of Value::parse / ParsedOptions::assign / assignDefaults + differential correspondence'
 DESIGN_REF = 'DESIGN.md section 5, C15'
 LEVEL_TEXT = ('Machine-checked proofs (Coq) over the model of ParsedOptions::assign (value states, scope guard run on the exception path) and '
               'assignDefaults, generic in the option set, the per-option parser, the sources, the exclude sets and the parsed set (assignDefaults depends on it only through the membership '
-              'of the context\'s own option names - foreign names and the size of the set are irrelevant: c15_defaults_own_names_only, c15_defaults_foreign_names, c15_defaults_reported_iff); the model is tied to the code by '
-              'differential correspondence against the real classes with nine kinds of typed targets, and an independent python oracle.')
-LEVEL_NOTE = 'Parsers are abstract in the proofs (any function string -> option value, plus what a refused string leaves in the variable).'
+              'of the context\'s own option names - foreign names and the size of the set are irrelevant: c15_defaults_own_names_only, c15_defaults_foreign_names, c15_defaults_reported_iff); '
+              'several runs over the same targets with the option set re-built for every run (fresh value states, surviving variables / ValueMap): after every run each option that received a '
+              'value in that run holds store(the parser results of that run) applied to the re-built variable, unmentioned options their default or what earlier runs left '
+              '(c15_run_values, c15_runs), and for every target an accepted value replaces - all typed scalars, all mapped values - nothing of the earlier runs survives '
+              '(c15_run_independent_of_earlier_runs); the model is tied to the code by '
+              'differential correspondence against the real classes with ten kinds of typed targets, and an independent python oracle.')
+LEVEL_NOTE = ('Parsers are abstract in the proofs (any function string -> option value, plus what a refused string leaves in the variable, plus what re-building '
+              'an option does to the model of its variable: nothing for a typed variable, "the entry is no longer the value\'s own object" for a mapped one).')
 
 INT_MIN, INT_MAX = -2 ** 31, 2 ** 31 - 1
 FLAGS = (0, 1, 7, 8)          # bool flags: bound to a bool& (0, 1) or stored in a ValueMap (7, 8)
 STORE_TRUE = (0, 7)           # declared with store_true (the default action); 1 and 8 are declared with store_false
-NKINDS = 9
+MAPPED = (5, 7, 8, 9)         # the value lives in the ValueMap (store<int>, flag, flag store_false, store<vector<int>>)
+NKINDS = 10
 BOOL_WORDS = [('1', 1), ('0', 0), ('no', 0), ('on', 1), ('yes', 1), ('off', 0), ('true', 1), ('false', 0)]
 
 
@@ -92,6 +100,8 @@ def decode(c):
                 i = nx()
                 pairs.append((i, st()))
             ops.append(('assign2', pairs))
+        elif o == 6:
+            ops.append(('newrun',))
         else:
             break
     return opts, ops
@@ -104,7 +114,7 @@ def s2t(b):
     return bytes(x & 255 for x in b).decode('latin-1')
 
 
-KN = ['flag', 'flag!false', 'int', 'string', 'vector<int>', 'map<int>', 'custom', 'map<flag>', 'map<flag!false>']
+KN = ['flag', 'flag!false', 'int', 'string', 'vector<int>', 'map<int>', 'custom', 'map<flag>', 'map<flag!false>', 'map<vector<int>>']
 
 
 def describe(c):
@@ -121,6 +131,8 @@ def describe(c):
             pd.append('parsed.add(%s)' % ', '.join('"o%d"%s' % (i, '' if i < len(opts) else '[foreign]') for i in op[1]))
         elif op[0] == 'assign2':
             pd.append('assign[second context](%s)' % ', '.join('o%d=%r' % (i, s2t(v)) for i, v in op[1]))
+        elif op[0] == 'newrun':
+            pd.append('NEW RUN (option set re-built; variables and ValueMap kept)')
         else:
             pd.append(op[0])
     return '[%s] %s' % ('; '.join(od), ' -> '.join(pd))
@@ -169,7 +181,7 @@ def parse(kind, s):
         return None, True
     if kind == 3:
         return list(s), False
-    if kind == 4:
+    if kind in (4, 9):
         out, rest = [], list(s)
         while True:
             r = scan_int(rest)
@@ -194,11 +206,17 @@ def init_var(kind):
     return [0] if kind in (0, 1) else [-777] if kind == 2 else []     # mapped values (5, 7, 8) are absent until the first accepted value
 
 
-def store(kind, x, var):
+def store(kind, x, var, owned=True):
+    """what an accepted value does to the bound variable.  A typed vector / the notifier's log is appended to - also by a re-built option,
+    the variable is the application's.  A MAPPED value is the object the option's current Value handed to the map: a Value that has not
+    handed one over yet (first accepted string of a fresh Value - first run or any later run) parses into a NEW object, and that object
+    becomes the entry whatever the map held under the name before (owned=False); afterwards the same Value parses in place."""
     if kind == 4:
         return var + x
     if kind == 6:
         return var + [len(x)] + x
+    if kind == 9:
+        return (var if owned else []) + x
     return list(x)
 
 
@@ -211,6 +229,8 @@ def oracle(c, obs):
     state = [0] * n
     var = [init_var(o['kind']) for o in opts]
     dirty = [False] * n
+    owned = [False] * n        # mapped kinds: the entry of the map is the object of the option's CURRENT Value (False again after a re-build)
+    runs = 0
     pos = [0]
 
     def take(k):
@@ -224,6 +244,13 @@ def oracle(c, obs):
         exp_err = None
         if op[0] == 'reset':
             parsed = set()
+            continue
+        if op[0] == 'newrun':
+            # the application builds its option set anew: nothing recorded, every value unassigned; the variables / the map keep their content
+            parsed = set()
+            state = [0] * n
+            owned = [False] * n
+            runs += 1
             continue
         if op[0] == 'add':
             # names recorded by the caller: options of this context count as mentioned, any other name is just a name in the set
@@ -258,11 +285,12 @@ def oracle(c, obs):
                     return []
                 if x is None:
                     exp_err = (3, i, v)           # refused value: names option and value
-                    dirty[i] = dirty[i] or d
+                    dirty[i] = dirty[i] or (d and (o['kind'] not in MAPPED or owned[i]))   # a fresh mapped value parses into a temporary
                     break
-                var[i] = store(o['kind'], x, var[i])
-                if o['kind'] not in (4,):
+                var[i] = store(o['kind'], x, var[i], owned[i])
+                if o['kind'] != 4 and not (o['kind'] == 9 and owned[i]):
                     dirty[i] = False
+                owned[i] = True
                 got.append(i)
             for i in got:
                 parsed.add(i)
@@ -278,11 +306,12 @@ def oracle(c, obs):
                     return []
                 if x is None:
                     exp_err = (2, i, o['dflt'])
-                    dirty[i] = dirty[i] or d
+                    dirty[i] = dirty[i] or (d and (o['kind'] not in MAPPED or owned[i]))
                     break
-                var[i] = store(o['kind'], x, var[i])
-                if o['kind'] not in (4,):
+                var[i] = store(o['kind'], x, var[i], owned[i])
+                if o['kind'] != 4 and not (o['kind'] == 9 and owned[i]):
                     dirty[i] = False
+                owned[i] = True
                 state[i] = 1
         # compare
         et = take(1)
@@ -316,7 +345,7 @@ def oracle(c, obs):
                     return ['default-not-applied-to-unmentioned-option']
                 return ['value-state-not-restored' if s_ == 2 else 'value-state-differs']
             if not dirty[i] and content != var[i]:
-                return ['variable-differs:' + KN[opts[i]['kind']]]
+                return ['variable-differs:' + KN[opts[i]['kind']] + (':in-run-%d-over-the-same-targets' % (runs + 1) if runs else '')]
     return []
 
 
@@ -331,7 +360,7 @@ def parsed_after(opts, ops):
     n = len(opts)
     parsed = set()
     for op in ops:
-        if op[0] == 'reset':
+        if op[0] in ('reset', 'newrun'):
             parsed = set()
         elif op[0] == 'add':
             parsed |= set(op[1])
@@ -373,12 +402,14 @@ GOOD = {0: ['', '1', '0', 'yes', 'no', 'on', 'off', 'true', 'false'], 1: ['', '1
         2: ['0', '7', '-5', '12', '+3', '2147483647', '-2147483648', '100', ' 4'],
         3: ['', 'a', 'hello world', 'x=1', '--o1', '\xff\x01', 'a,b'],
         4: ['1', '1,2', '3,4,5', '-1,0', '7'], 5: ['1', '42', '-9', '2147483647'], 6: ['', 'a', 'abc', ' x', 'a!'],
-        7: ['', '1', '0', 'yes', 'no', 'on', 'off', 'true', 'false'], 8: ['', '1', '0', 'no', 'true', 'off', 'yes']}
+        7: ['', '1', '0', 'yes', 'no', 'on', 'off', 'true', 'false'], 8: ['', '1', '0', 'no', 'true', 'off', 'yes'],
+        9: ['1', '1,2', '3,4,5', '-1,0', '7', '9,10']}
 BAD = {0: ['x', '1x', 'truex', 'nope', 'o', 'TRUE', 'yes ', '2'], 1: ['x', '0x', 'offf', 'f'],
        2: ['', 'x', '1x', '-', '--1', '1,2', '12 ', '2147483648', '-2147483649', '99999999999999999999', '1.5', '+-1'],
        3: [], 4: ['', 'x', '1,', ',1', '1,,2', '1,x', '1x', '1;2', '2147483648', '1,2147483648'],
        5: ['', 'x', '5x', '2147483648', 'a1'], 6: ['!', '!a', '!!'],
-       7: ['x', '1x', 'truex', 'nope', 'o', 'TRUE', 'yes ', '2'], 8: ['x', '0x', 'offf', 'f', '1x']}
+       7: ['x', '1x', 'truex', 'nope', 'o', 'TRUE', 'yes ', '2'], 8: ['x', '0x', 'offf', 'f', '1x'],
+       9: ['', 'x', '1,', ',1', '1,,2', '1,x', '1x', '2147483648', '6,2147483648']}
 
 
 def rand_val(rnd, kind, p_bad):
@@ -439,6 +470,56 @@ def gen_foreign(rnd):
     return enc
 
 
+def gen_runs(rnd):
+    """Several RUNS over the same targets: the option set is built anew for every run (op 6), the variables and the ValueMap survive.
+    Mapped kinds are favoured (a fresh mapped value must REPLACE the entry an earlier run left); every run = 0..3 sources (values drawn
+    anew, so that a stale content is visible) + mostly assignDefaults; a few refused strings / duplicates / exclude sets / resets."""
+    n = rnd.choice([1, 1, 2, 2, 3, 4])
+    enc = [n]
+    kinds, impls = [], []
+    for i in range(n):
+        k = rnd.choice([5, 5, 5, 7, 8, 9, 9, 2, 3, 4, 0, 1, 6])
+        kinds.append(k)
+        comp = 1 if rnd.random() < (0.5 if k in (4, 6, 9) else 0.12) else 0
+        enc += [k, comp]
+        if rnd.random() < 0.15:
+            enc += [1] + enc_str(rnd.choice(['', rand_val(rnd, k, 0.1)]))
+            impls.append(True)
+        else:
+            enc += [0]
+            impls.append(k in FLAGS)
+        if rnd.random() < 0.55:
+            enc += [1] + enc_str(rand_val(rnd, k, 0.12))
+        else:
+            enc += [0]
+    p_bad = rnd.choice([0.0, 0.0, 0.0, 0.08, 0.2])
+    p_dup = rnd.choice([0.0, 0.0, 0.1, 0.3])
+    for r in range(rnd.choice([2, 2, 3, 3, 4])):
+        if r:
+            enc += [6]
+        for _ in range(rnd.choice([0, 1, 1, 1, 2, 2, 3])):
+            if rnd.random() < 0.05:
+                enc += [3]
+            enc += [1]
+            if rnd.random() < 0.15:
+                ex = [rnd.randrange(n + 1) for _ in range(rnd.randint(0, 2))]
+                enc += [1, len(ex)] + ex
+            else:
+                enc += [0]
+            pairs = []
+            for _ in range(rnd.choice([1, 1, 2, 2, 3, 4])):
+                pairs.append(rnd.choice(pairs) if pairs and rnd.random() < p_dup else rnd.randrange(n))
+            enc += [len(pairs)]
+            for i in pairs:
+                v = rand_val(rnd, kinds[i], p_bad)
+                if v == '' and not impls[i] and kinds[i] in FLAGS:
+                    v = '1'
+                enc += [i] + enc_str(v)
+        if rnd.random() < 0.75:
+            enc += [2]
+    return enc
+
+
 def gen_case(rnd, shape=None):
     n = rnd.choice([1, 2, 2, 3, 3, 4, 5, 6])
     enc = [n]
@@ -447,7 +528,7 @@ def gen_case(rnd, shape=None):
     for i in range(n):
         k = rnd.randrange(NKINDS)
         kinds.append(k)
-        comp = 1 if rnd.random() < (0.6 if k in (4, 6) else 0.25) else 0
+        comp = 1 if rnd.random() < (0.6 if k in (4, 6, 9) else 0.25) else 0
         enc += [k, comp]
         if rnd.random() < 0.25:
             iv = rnd.choice(['', rand_val(rnd, k, 0.3)])
@@ -529,18 +610,41 @@ FIXED = [
     [2, 7, 0, 0, 0, 8, 0, 0, 1, 3, 111, 102, 102, 1, 0, 1, 0, 3, 111, 102, 102, 2],
     # bool& and mapped store_false side by side, explicit values, then a refused string on both mapped flags
     [4, 1, 0, 0, 0, 8, 0, 0, 0, 7, 1, 0, 0, 8, 1, 0, 0, 1, 0, 6, 0, 2, 110, 111, 1, 2, 110, 111, 2, 1, 49, 3, 1, 48, 2, 2, 49, 120, 3, 2, 49, 120],
+    # ---- several runs over the same targets (op 6 = the option set is built anew, variables / ValueMap kept) ----
+    # [o0 = store<int>(map)] assign(o0='3') -> NEW RUN -> assign(o0='7'): the map holds 7
+    [1, 5, 0, 0, 0, 1, 0, 1, 0, 1, 51, 6, 1, 0, 1, 0, 1, 55],
+    # [o0 = store<int>(map) default '1'] assign(o0='3') -> NEW RUN -> defaults: the map holds the default 1
+    [1, 5, 0, 0, 1, 1, 49, 1, 0, 1, 0, 1, 51, 6, 2],
+    # [o0 = store<vector<int>>(map) composing] assign(o0='1', o0='2') -> NEW RUN -> assign(o0='9'): [9] (a typed vector would hold [1,2,9])
+    [1, 9, 1, 0, 0, 1, 0, 2, 0, 1, 49, 0, 1, 50, 6, 1, 0, 1, 0, 1, 57],
+    # mapped flags: run 1 both implicit, run 2 both 'no'
+    [2, 7, 0, 0, 0, 8, 0, 0, 0, 1, 0, 2, 0, 0, 1, 0, 6, 1, 0, 2, 0, 2, 110, 111, 1, 2, 110, 111],
+    # refused string for a fresh mapped value: the entry of run 1 is untouched, then an accepted one replaces it; in-place leftovers of '5,y'
+    [2, 5, 0, 0, 0, 9, 1, 0, 0, 1, 0, 2, 0, 1, 51, 1, 1, 49, 6, 1, 0, 1, 0, 2, 53, 120, 1, 0, 1, 1, 3, 49, 44, 120, 1, 0, 2, 1, 1, 52, 1, 3, 53, 44, 121, 1, 0, 1, 0, 1, 56],
 ]
+# three runs as an application that re-reads its configuration does them (level/ids/name in one ValueMap, plain bound to an int):
+#   run 1: [level=3 ids=1 ids=2] [level=4 name=first plain=8] defaults   run 2: [ids=9] [level=7 name=second ids=10] defaults   run 3: [plain=2] [] defaults
+# kept as the LAST generated case: a leak report at process exit can only be attributed to the last case of a batch by the driver, and
+# this is a case of the one family in which an option set is destroyed and re-built
+LAST = [4, 5, 0, 0, 1, 1, 49, 9, 1, 0, 0, 3, 0, 0, 0, 2, 0, 0, 1, 1, 53,
+        1, 0, 3, 0, 1, 51, 1, 1, 49, 1, 1, 50, 1, 0, 3, 0, 1, 52, 2, 5, 102, 105, 114, 115, 116, 3, 1, 56, 2,
+        6, 1, 0, 1, 1, 1, 57, 1, 0, 3, 0, 1, 55, 2, 6, 115, 101, 99, 111, 110, 100, 1, 2, 49, 48, 2,
+        6, 1, 0, 1, 3, 1, 50, 1, 0, 0, 2]
 
 
 def gen(seed, tier):
     rnd = random.Random(seed * 7919 + 15)
     total = {'quick': 4000, 'thorough': 150000, 'search': 8000}.get(tier, 4000)
     out = [(c, {'kind': 'fixed'}) for c in FIXED]
-    while len(out) < total:
-        if rnd.random() < 0.3:
+    while len(out) < total - 1:
+        r = rnd.random()
+        if r < 0.3:
             out.append((gen_foreign(rnd), {'kind': 'foreign-names-in-parsed-set'}))
+        elif r < 0.55:
+            out.append((gen_runs(rnd), {'kind': 'several-runs-over-the-same-targets'}))
         else:
             out.append((gen_case(rnd), {'kind': 'random'}))
+    out.append((LAST, {'kind': 'fixed'}))
     return out
 
 
@@ -563,6 +667,8 @@ def encode(raw_opts, ops):
             e += [5, len(op[1])]
             for i, v in op[1]:
                 e += [i, len(v)] + list(v)
+        elif op[0] == 'newrun':
+            e += [6]
         else:
             e += [3]
     return e
